@@ -271,4 +271,24 @@ def c17_g(ctx: Ctx):
     return swapped_arguments(ctx, "C17-g", ['signac.linked_view', 'signac.import_export']) + pure_logging(ctx, "C17-g", ['signac.linked_view'])
 
 
-RULES = [c17_a, c17_b, c17_c, c17_d, c17_e, c17_f, c17_g]
+@rule("C17-h")
+def c17_h(ctx: Ctx):
+    """The tree of existing view paths distinguishes directories by their exact names; paths inside the view are made relative with relpath, not by prefix length."""
+    from .lints import keyed_by_parameter, no_prefix_length_slicing
+    out = keyed_by_parameter(ctx, "C17-h", [(LV + ":_Node.get_child", "self.children", "name", "directories whose names differ only in case share one node: after a value is re-spelled "
+                                             "('Alpha' -> 'alpha') the obsolete branch is coloured alive and its dangling link is never removed")])
+    out += no_prefix_length_slicing(ctx, "C17-h", ["signac.linked_view", "signac.import_export"])
+    return out
+
+
+@rule("C17-i")
+def c17_i(ctx: Ctx):
+    """View paths spell state point keys as the schema reports them: the index prefix is removed at the front of the key only (from C18-b)."""
+    from .c18 import c18_b
+    res = [r for r in c18_b(ctx) if "_strip_prefix" in (r.function or "")]
+    for r in res:
+        r.rule = "C17-i"
+    return res
+
+
+RULES = [c17_a, c17_b, c17_c, c17_d, c17_e, c17_f, c17_g, c17_h, c17_i]
